@@ -79,6 +79,18 @@ SYMLINKS = [  # (link path, target text); "$R" is replaced by the sandbox root
 ]
 BASE_TARGETS = ("work/B", "work/B/sub")
 
+# Mutable area for the stateful cases (a tensor object kept alive while the files under it or
+# its base_dir change).  Self-contained: no hard link ever connects it with the static tree.
+DYN_DIRS = ["dyn", "dyn/base", "dyn/base/sub", "dyn/base_evil", "dyn/out", "dyn/out/sub",
+            "dyn/alt_sym", "dyn/alt_hl", "dyn/hold"]
+DYN_FILES = ["dyn/base/w.bin", "dyn/base/other.bin", "dyn/base/sub/w2.bin", "dyn/base_evil/w.bin",
+             "dyn/out/w.bin", "dyn/out/w_hl.bin", "dyn/out/sub/w2.bin"]
+DYN_HARDLINKS = [("dyn/out/w_hl.bin", "dyn/alt_hl/w.bin")]
+DYN_SYMLINKS = [
+    ("dyn/base/ln_w", "w.bin"), ("dyn/alt_sym/w.bin", "../out/w.bin"), ("dyn/alt_sym/sub", "../out/sub"),
+    ("dyn/alt_sym/ln_w", "../out/w.bin"), ("dyn/alt_hl/ln_w", "w.bin"), ("dyn/base_link", "base"),
+]
+
 
 def canary(rel: str) -> bytes:
     return hashlib.blake2b(("c10-canary:" + rel).encode(), digest_size=FILE_SIZE).digest()
@@ -90,6 +102,7 @@ class Entry:
     relpaths: list[str]
     nlink: int
     content: bytes | None = None
+    dyn: bool = False
 
 
 class Sandbox:
@@ -102,6 +115,12 @@ class Sandbox:
         self.inv: dict[tuple[int, int], Entry] = {}
         self._scan()
         self.scratch = self.R + "/scratch"
+        if build:
+            for d in DYN_DIRS:
+                os.mkdir(f"{self.R}/{d}")
+            self.dyn_reset()
+        else:
+            self.scan_dyn()
 
     def _build(self) -> None:
         R = self.R
@@ -124,8 +143,10 @@ class Sandbox:
         for dirpath, dirnames, filenames in os.walk(R, followlinks=False):
             rel_dir = os.path.relpath(dirpath, R)
             rel_dir = "" if rel_dir == "." else rel_dir
-            if "scratch" in dirnames and not rel_dir:
-                dirnames.remove("scratch")  # harness work area: not part of the inventory
+            if not rel_dir:
+                for skip in ("scratch", "dyn"):  # work area / mutable area (scan_dyn)
+                    if skip in dirnames:
+                        dirnames.remove(skip)
             for name in dirnames + filenames:
                 if name in MODEL_NAMES:
                     continue
@@ -148,6 +169,57 @@ class Sandbox:
             if e.kind == "file":
                 assert e.content is not None, e
                 assert e.nlink == len(e.relpaths), e
+
+    # ---- mutable area -------------------------------------------------------------------------
+    def dyn_reset(self) -> None:
+        """Bring dyn/ back to its pristine state (directories are kept) and re-inventory it."""
+        R = self.R
+        if os.path.islink(f"{R}/dyn/base/sub"):
+            os.unlink(f"{R}/dyn/base/sub")
+        if os.path.isdir(f"{R}/dyn/hold/sub_real"):
+            os.rename(f"{R}/dyn/hold/sub_real", f"{R}/dyn/base/sub")
+        for d in DYN_DIRS:
+            with os.scandir(f"{R}/{d}") as it:
+                for e in list(it):
+                    if not e.is_dir(follow_symlinks=False):
+                        os.unlink(e.path)
+        for f in DYN_FILES:
+            with open(f"{R}/{f}", "wb") as fh:
+                fh.write(canary(f))
+        for src, dst in DYN_HARDLINKS:
+            os.link(f"{R}/{src}", f"{R}/{dst}")
+        for link, target in DYN_SYMLINKS:
+            os.symlink(target, f"{R}/{link}")
+        self.scan_dyn()
+
+    def scan_dyn(self) -> None:
+        """Inventory of dyn/ as it is on disk *now* (contents read from disk by the harness)."""
+        R = self.R
+        for k in [k for k, e in self.inv.items() if e.dyn]:
+            del self.inv[k]
+        if not os.path.isdir(f"{R}/dyn"):
+            return
+        st = os.lstat(f"{R}/dyn")
+        self.inv[(st.st_dev, st.st_ino)] = Entry("dir", ["dyn"], st.st_nlink, dyn=True)
+        for dirpath, dirnames, filenames in os.walk(f"{R}/dyn", followlinks=False):
+            rel_dir = os.path.relpath(dirpath, R)
+            for name in dirnames + filenames:
+                rel = f"{rel_dir}/{name}"
+                st = os.lstat(f"{R}/{rel}")
+                key = (st.st_dev, st.st_ino)
+                if stat.S_ISLNK(st.st_mode):
+                    continue
+                if stat.S_ISDIR(st.st_mode):
+                    self.inv[key] = Entry("dir", [rel], st.st_nlink, dyn=True)
+                elif stat.S_ISREG(st.st_mode):
+                    e = self.inv.get(key)
+                    if e is None:
+                        with open(f"{R}/{rel}", "rb") as fh:
+                            e = self.inv[key] = Entry("file", [], st.st_nlink, fh.read(), dyn=True)
+                    e.relpaths.append(rel)
+        for e in self.inv.values():
+            if e.dyn:
+                e.relpaths.sort()
 
     def subst(self, template: str) -> str:
         return template.replace("$R", self.R)
